@@ -279,7 +279,7 @@ def P(spec):
 class Fn:
     def __init__(self, name, deps, params, ret="u64", is_async=False, calls=(), opts="",
                  props=("C01",), below="", trait=None, vis="pub", send=True, generics=(), where=(),
-                 bundle_args="", default_body=False, attrs="", unsafe_=False, big=False, guard_calls=False):
+                 bundle_args="", default_body=False, attrs="", unsafe_=False, big=False, guard_calls=False, deps_lt=False):
         self.name = name
         self.trait = trait or "".join(w.capitalize() for w in name.split("_"))
         self.deps = deps  # (form, [bounds])
@@ -302,6 +302,8 @@ class Fn:
         # nested calls only while the first argument is not a multiple of 3, passing it on
         # decremented: bounded recursion through the function's own (or a peer's) trait
         self.guard_calls = guard_calls
+        # write the dependency reference with the explicit lifetime 'a (`deps: &'a impl Tr`)
+        self.deps_lt = deps_lt
         self.fn_id = None
         self.method_id = None
         self.container = None  # module name / impl target
@@ -444,7 +446,7 @@ def lifetimes(fn):
 def deps_sig(fn):
     """returns (generics list, first param text or None, where list, recv expr, deps binding)"""
     form, bounds = fn.deps
-    a = "'a " if fn.ret == "refdeps" else ""
+    a = "'a " if fn.ret == "refdeps" or fn.deps_lt else ""
     b = " + ".join(bounds)
     if form == "impl":
         ty = f"impl {b}" if len(bounds) == 1 else f"(impl {b})"
@@ -688,6 +690,10 @@ single(Fn("r_u32", ("impl", ["F0"]), ["u64"], ret="u32r", calls=["f0"]))
 single(Fn("r_i32", ("any", []), [], ret="i32r"))
 single(Fn("r_usize", ("impl", ["F0"]), [], ret="usizer"))
 single(Fn("ar_u8", ("impl", ["Af0"]), ["u64"], ret="u8r", is_async=True))
+# explicit lifetime on the dependency reference
+single(Fn("lt_deps", ("impl", ["F0"]), ["refa", "u64"], ret="refarg", deps_lt=True, calls=["f0"], props=("C01", "C14")))
+single(Fn("alt_deps", ("gen", ["Af0"]), ["u64", "refa"], ret="refarg", deps_lt=True, is_async=True, props=("C01", "C14")))
+module("ltmod", "Ltmod", [Fn("ltm_a", ("impl", ["F0"]), ["refa", "u64"], ret="refarg", deps_lt=True), Fn("ltm_b", ("impl", ["F0"]), ["refa", "u64"], ret="refarg")])
 # doc comments and lint / doc attributes below `#[entrait]`
 single(Fn("doc_fn", ("impl", ["F0"]), ["u64", "u64"], below="/// A documented function.\n/// Second line of documentation.", calls=["f0"], props=("C01", "C14")))
 single(Fn("adoc_fn", ("impl", ["Af0"]), ["u64", "u64"], is_async=True, below="/** block doc */\n#[doc(hidden)]\n#[allow(unused_variables, clippy::all)]", props=("C01", "C14")))
@@ -1774,6 +1780,9 @@ usingle(Fn("und_destr3", ("nodeps", []), ["pair", "destr:pair", "pair"], opts="n
 usingle(Fn("und_wild2", ("nodeps", []), ["wild:u64", "u64", "wild:u64", "u64"], opts="no_deps"), "UndWild2Mock")
 usingle(Fn("und_same", ("nodeps", []), ["u64", "same:u64"], opts="no_deps"), "UndSameMock")
 usingle(Fn("u_same", ("impl", ["U0"]), ["u64", "same:u64"], calls=["u0"]), "USameMock")
+usingle(Fn("u_lt", ("impl", ["U0"]), ["refa", "u64"], ret="refarg", deps_lt=True, calls=["u0"]), "ULtMock")
+usingle(Fn("u_lt_gen", ("gen", ["U0"]), ["u64", "refa"], ret="refarg", deps_lt=True), "ULtGenMock")
+usingle(Fn("au_lt", ("impl", ["Au0"]), ["refa", "u64"], ret="refarg", deps_lt=True, is_async=True, calls=["au0"]), "AuLtMock")
 usingle(Fn("und_same_first", ("nodeps", []), ["same:u64", "u64"], opts="no_deps"), "UndSameFirstMock")
 usingle(Fn("u_same_first", ("impl", ["U0"]), ["same:u64", "u64", "u64"], calls=["u0"]), "USameFirstMock")
 for _i, _pm in enumerate(_PERMS[:3]):
@@ -1868,6 +1877,7 @@ umodule("umz", "Umz", [Fn(f"umz_{n}", ("impl", ["U0"]), ["u64", "u64"], calls=["
 umodule("umzn", "Umzn", [Fn(f"umzn_{n}", ("nodeps", []), ["u64", "u64"]) for n in "cab"], nodeps=True)
 umodule("aumz", "Aumz", [Fn(f"aumz_{n}", ("impl", ["Au0"]), ["u64", "u64"], is_async=True, calls=["au0"]) for n in "ba"])
 umodule("umzv", "Umzv", [Fn(f"umzv_{n}", ("impl", ["U0"]), ["u64", "u64"], vis=v) for n, v in zip("cadb", ["pub(crate)", "pub", "pub(in crate)", "pub"])])
+umodule("umlt", "Umlt", [Fn("umlt_a", ("impl", ["U0"]), ["refa", "u64"], ret="refarg", deps_lt=True), Fn("umlt_b", ("impl", ["U0"]), ["refa", "u64"], ret="refarg", deps_lt=True)])
 umodule("umzf", "Umzf", [Fn(f"umzf_{n}", ("nodeps", []), ["u64", "u64"]) for n in "zxy"], nodeps=True, fillers=(0, 1))
 
 
@@ -1983,6 +1993,20 @@ def macro_generated():
              f"                let __f = sim::enter({f4.fn_id}, sim::addr(deps), &[$p, dup]);\n                sim::user_alloc(&__f);\n                sim::sync_point(&__f);\n                sim::exit(__f, &[])\n            }}\n        }}\n"
              f"    }};\n}}\n{cfg}mk_mac_fns!(dup);\n")
     unmock_traits.append(("MacNd", False))
+    # `$e:expr` fragments next to tighter-binding operators inside the body of a macro-stamped fn:
+    # the function AS WRITTEN keeps the fragment together (`p0 * (1 + 2)`), so it records p0 itself
+    e1 = reg("mac_expr", False, "fn", ("C01", "C14"))
+    e2 = reg("mac_aexpr", True, "fn", ("C01", "C14"))
+    e3 = reg("mac_mexpr", False, "mod", ("C01",))
+    e3.container = "mac_emod"
+    text += (f"{cfg}macro_rules! mk_mac_exprs {{\n    ($e:expr, $neg:expr) => {{\n"
+             f"        #[entrait(pub MacExpr)]\n        pub fn mac_expr(deps: &impl F0, p0: u64, p1: u64) -> u64 {{\n"
+             f"            let __f = sim::enter({e1.fn_id}, sim::addr(deps), &[(p0 * $e) / 3, p1]);\n            sim::user_alloc(&__f);\n            sim::sync_point(&__f);\n            sim::exit(__f, &[])\n        }}\n"
+             f"        #[entrait(pub MacAexpr)]\n        pub async fn mac_aexpr(deps: &impl Af0, p0: u64, p1: u64) -> u64 {{\n"
+             f"            let __f = sim::enter({e2.fn_id}, sim::addr(deps), &[p0, (-$neg) as u64 + p1 - 3]);\n            sim::user_alloc(&__f);\n            sim::pause(&__f).await;\n            sim::exit(__f, &[])\n        }}\n"
+             f"        #[entrait(pub MacEmod)]\n        pub mod mac_emod {{\n            use super::*;\n            pub fn mac_mexpr(deps: &impl F0, p0: u64, p1: u64) -> u64 {{\n"
+             f"                let __f = sim::enter({e3.fn_id}, sim::addr(deps), &[p0, (p1 * $e) / 3]);\n                sim::user_alloc(&__f);\n                sim::sync_point(&__f);\n                sim::exit(__f, &[])\n            }}\n        }}\n"
+             f"    }};\n}}\n{cfg}mk_mac_exprs!(1 + 2, -1i64 - 2);\n")
     # entraited traits: Self and ref delegation
     t1 = reg("mac_p", False, "trait", ("C06", "C14"), pair=True)
     t2 = reg("mac_r", False, "trait", ("C06",), pair=True)
